@@ -174,10 +174,13 @@ def changed_notebooks(ref_base, ref_remote, paths=None, repo_dir=None):
     for entry in diff:
         fa = _get_diff_entry_stream(
             entry.a_path, entry.a_blob, ref_base, repo_dir)
-        if fa is None:
-            continue
         fb = _get_diff_entry_stream(
             entry.b_path, entry.b_blob, ref_remote, repo_dir)
-        if fb is None:
+        if fa is None and fb is None:
             continue
-        yield (fa, fb)
+        # A rename across the notebook suffix has a notebook on one side
+        # only: show it as added/removed rather than skipping it.
+        yield (
+            EXPLICIT_MISSING_FILE if fa is None else fa,
+            EXPLICIT_MISSING_FILE if fb is None else fb,
+        )
